@@ -96,6 +96,23 @@ def shapes_for(seed_bytes, sizes):
         series(label + '-before', lambda n, j=junk: j * (n // len(j)) + seed_bytes)
         if L > 4:
             series(label + '-inside', lambda n, j=junk: seed_bytes[:L // 2] + j * (n // len(j)) + seed_bytes[L // 2:])
+    # a run of units and, far behind it, the one octet (or short token) that makes every unit of the run fail late: each unit is
+    # scanned up to that far token, refused, and taken by the fallback alone - the next unit starts the same scan again
+    texty = all(b in (9, 10, 13) or 32 <= b < 127 for b in seed_bytes[:200])
+    if texty:
+        for label, junk in () if L > 600 else (('pad-spf-term', b' a:x'), ('pad-word', b' mx'), ('pad-name-eq', b'a=b;'), ('pad-list-item', b', a'),
+                            ('pad-directive', b'; a=b'), ('pad-header-line', b'\r\nX: y'), ('pad-a-colon', b'a:')):
+            for tname, tail in (('slash99', b'/99'), ('crlf', b'\r\n'), ('quote', b'"'), ('eq', b'=')):
+                series('%s-after-then-%s' % (label, tname), lambda n, j=junk, t=tail: seed_bytes + j * (n // len(j)) + t)
+        # lines that carry the NAME the input itself starts with (a name the class knows) and a value it will refuse, ended by a
+        # bare LF / CR, the CRLF only at the far end
+        head = seed_bytes.split(b':', 1)[0] if b':' in seed_bytes[:60] else b''
+        if head and b'\n' not in head and b' ' not in head:
+            for lname, le in (('lf', b'\n'), ('cr', b'\r')):
+                unit = head + b': \x7fx' + le
+                series('pad-own-name-%s-lines-before' % lname, lambda n, u=unit: u * (n // len(u)) + b'\r\n' + seed_bytes)
+                series('pad-own-name-%s-lines-after' % lname, lambda n, u=unit: seed_bytes + u * (n // len(u)) + b'\r\n')
+                series('pad-own-name-%s-lines-only' % lname, lambda n, u=unit: u * (n // len(u)) + b'\r\n\r\n')
     # declared lengths / counts far beyond the data: the size stays, the declared value doubles
     if L >= 4 and any(b > 0x7f or b < 0x20 for b in seed_bytes[:8]):
         for off in range(0, min(L - 1, 10)):
